@@ -1935,7 +1935,9 @@ func (p *Parser) parseConditionVarOperator(expression *ast.OperatorExpression) e
 			} else if p.curToken.Type == token.RPAREN {
 				if numOpenParens == 0 {
 					p.nextToken()
-					if len(parts) > 1 {
+					// Wrap multi-token values in parentheses. A single token that is a
+					// constant with a multi-token value counts as multi-token too.
+					if len(strings.Fields(strings.Join(parts, " "))) > 1 {
 						parts = append(parts, ")")
 						parts = append([]string{"("}, parts...)
 					}
